@@ -469,6 +469,45 @@ func runC10OneShot(c *core.Ctx) {
 		})
 	}()
 	<-busy
+	if c.T.Bias(1, 3, "gather-then-restart") {
+		// GatherCandidates, then Restart, queued in this order behind the busy loop: the outcome must be that of
+		// the two whole operations one after the other - the cycle the first one started is cancelled by the
+		// second, the agent is back in gathering state New with no candidates, and may gather again.
+		var gErr, rErr error
+		var gDone, rDone atomic.Bool
+		go func() { gErr = ag.A.GatherCandidates(); gDone.Store(true) }()
+		synctest.Wait()
+		go func() { rErr = ag.A.Restart("", ""); rDone.Store(true) }()
+		synctest.Wait()
+		c.Fault("gather-and-restart-queued-behind-busy-loop")
+		close(release)
+		for i := 0; i < 50 && !(gDone.Load() && rDone.Load()); i++ {
+			synctest.Wait()
+			time.Sleep(10 * time.Millisecond)
+		}
+		if !gDone.Load() || !rDone.Load() {
+			c.Failf("C10/one-shot-call-never-returns", "GatherCandidates/Restart did not return after the loop was released")
+			return
+		}
+		if gErr != nil || rErr != nil {
+			c.Failf("C10/queued-call-fails", "GatherCandidates=%v Restart=%v", gErr, rErr)
+			return
+		}
+		time.Sleep(3 * time.Second) // whatever the cancelled cycle still does has happened by now
+		synctest.Wait()
+		st, _ := ag.A.GetGatheringState()
+		lc, _ := ag.A.GetLocalCandidates()
+		if st != ice.GatheringStateNew || len(lc) != 0 {
+			c.Failf("C10/restart-not-atomic-with-queued-gather", "GatherCandidates then Restart (queued in this order): gathering state is %s with %d local candidate(s); expected New and none - the cycle started by the first call survived the Restart that followed it", st, len(lc))
+			return
+		}
+		if err := ag.A.GatherCandidates(); err != nil {
+			c.Failf("C10/restart-not-atomic-with-queued-gather", "GatherCandidates after GatherCandidates+Restart returned %v", err)
+			return
+		}
+		c.Probe("one-shot-gather-then-restart")
+		return
+	}
 	kind := 0
 	n := c.T.Range(2, 3, "ncalls")
 	type res struct {
